@@ -82,13 +82,17 @@ def _unwrap(P, k):
 
 def _const(P, f, e):
     """Integer value of an expression that is a literal or a module-level constant name."""
-    e = astq.trace(f, e) if isinstance(e, ast.Name) else e
+    if isinstance(e, ast.Name):
+        t_ = astq.trace(f, e)
+        e = t_ if isinstance(t_, ast.AST) else e
     if isinstance(e, ast.Constant) and isinstance(e.value, (int, float)) and not isinstance(e.value, bool):
         return e.value
     if isinstance(e, ast.Name):
         r = P.resolve_global(f.mod, e.id)
-        if r and r[0] == 'assign' and isinstance(getattr(r[2], 'value', None), ast.Constant) and isinstance(r[2].value.value, (int, float)):
-            return r[2].value.value
+        v_ = r[2] if r and r[0] == 'assign' else None
+        v_ = getattr(v_, 'value', v_) if isinstance(v_, ast.Assign) else v_
+        if isinstance(v_, ast.Constant) and isinstance(v_.value, (int, float)) and not isinstance(v_.value, bool):
+            return v_.value
     return None
 
 
